@@ -1,8 +1,8 @@
 package main
 
 import (
-	"context"
 	"bytes"
+	"context"
 	"encoding/xml"
 	"errors"
 	"fmt"
@@ -13,6 +13,7 @@ import (
 	"net/url"
 	"os"
 	"path/filepath"
+	"regexp"
 	"sort"
 	"strings"
 	"sync"
@@ -75,7 +76,6 @@ func newSandbox(spelling int) *sandbox {
 	sb.canary = sb.outside()
 	return sb
 }
-
 
 func (sb *sandbox) close() { os.RemoveAll(sb.base) }
 
@@ -273,6 +273,7 @@ type msResponse struct {
 				Collection *struct{} `xml:"DAV: collection"`
 			} `xml:"DAV: resourcetype"`
 			Length *string `xml:"DAV: getcontentlength"`
+			ETag   *string `xml:"DAV: getetag"`
 		} `xml:"DAV: prop"`
 	} `xml:"DAV: propstat"`
 }
@@ -530,6 +531,18 @@ func (sb *sandbox) do(rq fsReq) (line string, goOut string) {
 					}
 				}
 				items = append(items, sx(hx(href), b01(coll), size))
+				// the tag a listing announces for a member is the tag GET, HEAD and PUT announce for it (the one a
+				// conditional request on it is judged by): a pseudo entry marks a member listed with another one
+				for _, ps := range r.PropStats {
+					if strings.Contains(ps.Status, " 200 ") && ps.Prop.ETag != nil && !coll && len(r.Hrefs) == 1 && !strings.HasPrefix(href, "\x00") {
+						if hp, err := webdavLocal(sb.root, href); err == nil {
+							// (a propname answer lists the name without a value)
+							if now, ok := localEtag(hp); ok && strings.TrimSpace(*ps.Prop.ETag) != "" && strings.TrimSpace(*ps.Prop.ETag) != internal.ETag(now).String() {
+								items = append(items, sx(hx("\x00tag:"+href), "0", "-"))
+							}
+						}
+					}
+				}
 			}
 			sort.Strings(items)
 			multi = sxl(items)
@@ -720,6 +733,7 @@ func famFsReq(o *Out, r *RNG, thorough bool) {
 			}
 		}
 	}
+	emitFsObs(o)
 	// traversal forms and special names against a tree with content (C03 end to end, canaries outside)
 	sb := newSandbox(5)
 	defer sb.close()
@@ -961,3 +975,209 @@ func famFsReq(o *Out, r *RNG, thorough bool) {
 }
 
 func init() { families["fsreq"] = famFsReq }
+
+// ---- fs.obs: served directories holding what WebDAV cannot create and the tree model cannot express (symbolic links
+// to collections, to files, dangling, with absolute targets; a served directory that is itself reached through a
+// link; a file outside the root at the very host path a request path spells).  The model abstains on these; what is
+// judged is what the properties say of EVERY response and EVERY request whatever the tree: no host path in a response
+// (C17), nothing outside the root touched (C03), nothing outside the root READ in a way that shows (C03: the answer
+// to a request may not depend on what lies outside the root).
+func emitFsObs(o *Out) {
+	type scen struct {
+		name     string
+		spelling int
+		viaLink  bool // the handler is configured with a symbolic link to the served directory
+		build    func(sb *sandbox)
+	}
+	build := func(sb *sandbox) {
+		sb.reset([]fsEntry{{path: "/", dir: true}, {path: "/d", dir: true}, {path: "/d/f", content: "in d"}, {path: "/t.txt", content: "target"},
+			{path: "/z.txt", content: "zz"}, {path: "/noext", content: "plain words"}})
+		os.Symlink("d", filepath.Join(sb.root, "ld"))                                // link to a collection
+		os.Symlink("t.txt", filepath.Join(sb.root, "lf"))                            // link to a file
+		os.Symlink("missing", filepath.Join(sb.root, "dangling"))                    // dangling link
+		os.Symlink(filepath.Join(sb.root, "d"), filepath.Join(sb.root, "labs"))      // absolute target inside the root
+		os.Symlink(filepath.Join(sb.root, "t.txt"), filepath.Join(sb.root, "lfabs")) // absolute target, a file
+	}
+	for _, sc := range []scen{{"links", 0, false, build}, {"links-relroot", 5, false, build}, {"links-root-via-link", 0, true, build}} {
+		sb := newSandbox(sc.spelling)
+		sc.build(sb)
+		alias := sb.base + "-alias" // next to the sandbox (a DELETE of "/" removes the link itself: recreated per request)
+		if sc.viaLink {
+			os.Symlink(sb.root, alias)
+			sb.h = &webdav.Handler{FileSystem: webdav.LocalFileSystem(alias)}
+		}
+		sb.canary = sb.outside()
+		paths := []string{"/", "/ld", "/ld/", "/ld/f", "/lf", "/dangling", "/labs", "/labs/f", "/lfabs", "/d", "/z.txt", "/d/..", "/./"}
+		var reqs []fsReq
+		for _, p := range paths {
+			for _, m := range []string{"GET", "HEAD", "OPTIONS", "DELETE", "MKCOL"} {
+				reqs = append(reqs, fsReq{method: m, path: p, fault: -1})
+			}
+			reqs = append(reqs, fsReq{method: "PUT", path: p, body: "new", fault: -1}, fsReq{method: "PUT", path: p, body: "new", ifm: 'c', fault: -1})
+			for _, d := range []string{"0", "1", "infinity"} {
+				reqs = append(reqs, fsReq{method: "PROPFIND", path: p, depth: d, pf: 'a', ctype: "application/xml", fault: -1})
+			}
+			for _, m := range []string{"COPY", "MOVE"} {
+				for _, dst := range []string{"/cp", "/d/cp", "/ld/cp", "/lf", "/z.txt", "/nope/cp"} {
+					reqs = append(reqs, fsReq{method: m, path: p, dest: sp(dst), fault: -1})
+				}
+				reqs = append(reqs, fsReq{method: m, path: "/z.txt", dest: sp(p), fault: -1}, fsReq{method: m, path: "/d", dest: sp(p), ow: "F", fault: -1})
+			}
+		}
+		for _, rq := range reqs {
+			sc.build(sb)
+			if sc.viaLink {
+				os.Remove(alias)
+				os.Symlink(sb.root, alias)
+			}
+			_, out := sb.do(rq)
+			f := strings.Fields(out)
+			dst := "-"
+			if rq.dest != nil {
+				dst = hx(*rq.dest)
+			}
+			// status, leak flag, canary flag are the first, the last but one and the last token of an fs.req answer
+			o.Stat("fsobs." + sc.name)
+			scope := "0"
+			if rq.method == "PROPFIND" && f[0] == "207" && !sb.listingComplete(rq) {
+				scope = "1"
+			}
+			o.Emit("fs.obs", sc.name+" "+rq.method+" "+hx(rq.path)+" "+dst+" "+sx(rq.depth+"-", rq.ow+"-"), f[0]+" "+f[len(f)-2]+" "+f[len(f)-1]+" "+scope)
+		}
+		os.Remove(alias)
+		sb.close()
+	}
+	// a file OUTSIDE the root at exactly the host path a request path spells: what the server answers for the resource
+	// inside the root may not depend on it (content, type, length, tag flag, listing)
+	{
+		sb := newSandbox(0)
+		outer := filepath.Join(sb.base, "outer")
+		inner := outer // the request path that, read as a host path, names the outer file
+		mk := func(withOuter bool, outerContent []byte) {
+			sb.reset([]fsEntry{{path: "/", dir: true}})
+			os.MkdirAll(filepath.Join(sb.root, filepath.Dir(inner)), 0755)
+			os.WriteFile(filepath.Join(sb.root, inner), []byte("plain words inside"), 0644)
+			os.Remove(outer)
+			if withOuter {
+				os.WriteFile(outer, outerContent, 0644)
+			}
+		}
+		png := []byte("\x89PNG\r\n\x1a\n\x00\x00\x00\rIHDR")
+		for _, rq := range []fsReq{{method: "GET", path: inner, fault: -1}, {method: "HEAD", path: inner, fault: -1},
+			{method: "PROPFIND", path: inner, depth: "0", pf: 'a', ctype: "application/xml", fault: -1},
+			{method: "PROPFIND", path: filepath.Dir(inner), depth: "1", pf: 'a', ctype: "application/xml", fault: -1}} {
+			answers := map[string]bool{}
+			for _, v := range []struct {
+				with bool
+				c    []byte
+			}{{false, nil}, {true, png}, {true, []byte("<html><body>x</body></html>")}} {
+				mk(v.with, v.c)
+				answers[sb.raw(rq)] = true
+			}
+			dep := "0"
+			if len(answers) != 1 {
+				dep = "1"
+				if os.Getenv("VERIF_DEBUG") != "" {
+					for a := range answers {
+						fmt.Fprintln(os.Stderr, "OUTER-ANSWER", rq.method, a)
+					}
+				}
+			}
+			o.Stat("fsobs.outer")
+			o.Emit("fs.obs", "outer "+rq.method+" "+hx("/<host path of a file outside>")+" - "+sx(rq.depth+"-", "-"), "200 0 "+dep+" 0")
+		}
+		os.Remove(outer)
+		sb.close()
+	}
+}
+
+// the raw answer to a request (status, the entity headers that describe the resource, body) with clock-dependent
+// parts removed
+func (sb *sandbox) raw(rq fsReq) string {
+	req := httptest.NewRequest(rq.method, "http://example.com"+(&url.URL{Path: rq.path}).EscapedPath(), strings.NewReader(rq.body))
+	if rq.depth != "" {
+		req.Header.Set("Depth", rq.depth)
+	}
+	if rq.ctype != "" {
+		req.Header.Set("Content-Type", rq.ctype)
+		req.Body = io.NopCloser(strings.NewReader(pfBodies[rq.pf]))
+	}
+	rec := httptest.NewRecorder()
+	func() {
+		defer func() { recover() }()
+		sb.h.ServeHTTP(rec, req)
+	}()
+	body := regexp.MustCompile(`<getlastmodified[^>]*>[^<]*</getlastmodified>|<getetag[^>]*>[^<]*</getetag>`).ReplaceAllString(rec.Body.String(), "")
+	// properties come out of a Go map: order-insensitive comparison of the pieces
+	pieces := strings.Split(body, "<")
+	sort.Strings(pieces)
+	if rec.Code != 207 {
+		pieces = []string{body}
+	}
+	return fmt.Sprint(rec.Code, rec.Header().Get("Content-Type"), "|", len(body), "|", strings.Join(pieces, "<"))
+}
+
+// whether a 207 answer to a PROPFIND on a directory of the served tree lists the directory itself and exactly its
+// direct entries (Depth 1) or everything below it (Depth infinity; links are entries, they are not followed), each once
+func (sb *sandbox) listingComplete(rq fsReq) bool {
+	hp, err := webdavLocal(sb.root, rq.path)
+	if err != nil {
+		return true
+	}
+	// (a collection addressed through a link is the directory the link names, as for GET, Stat and Depth 0)
+	if st, err := os.Stat(hp); err != nil || !st.IsDir() || rq.depth == "0" {
+		return true
+	}
+	if st, err := os.Lstat(hp); err == nil && st.Mode()&os.ModeSymlink != 0 {
+		hp += string(filepath.Separator)
+	}
+	want := map[string]int{}
+	if rq.depth == "1" {
+		want[filepath.Clean(hp)] = 1
+		es, _ := os.ReadDir(hp)
+		for _, e := range es {
+			want[filepath.Join(hp, e.Name())] = 1
+		}
+	} else {
+		filepath.Walk(hp, func(p string, fi os.FileInfo, err error) error {
+			if err == nil {
+				want[filepath.Clean(p)] = 1
+			}
+			return nil
+		})
+	}
+	req := httptest.NewRequest("PROPFIND", "http://example.com"+(&url.URL{Path: rq.path}).EscapedPath(), nil)
+	req.Header.Set("Depth", rq.depth)
+	rec := httptest.NewRecorder()
+	func() {
+		defer func() { recover() }()
+		sb.h.ServeHTTP(rec, req)
+	}()
+	var doc msDoc
+	if xml.Unmarshal(rec.Body.Bytes(), &doc) != nil {
+		return false
+	}
+	got := map[string]int{}
+	for _, r := range doc.Responses {
+		for _, h := range r.Hrefs {
+			u, err := url.Parse(h)
+			if err != nil {
+				return false
+			}
+			lp, err := webdavLocal(sb.root, u.Path)
+			if err != nil {
+				return false
+			}
+			got[filepath.Clean(lp)]++
+		}
+	}
+	if len(got) != len(want) {
+		return false
+	}
+	for k := range want {
+		if got[k] != 1 {
+			return false
+		}
+	}
+	return true
+}
